@@ -218,7 +218,8 @@ class StickyAssignmentExecutor:
         subscribed_topics = {
             topic for member in self.members.values() for topic in member.subscription
         }
-        for topic in cluster.topics():
+        # internal topics included: a member may subscribe to one by name
+        for topic in cluster.topics(exclude_internal_topics=False):
             if topic not in subscribed_topics:
                 continue
             partitions = cluster.partitions_for_topic(topic)
